@@ -64,6 +64,16 @@ def gen_case(rng):
                           "orderTimeLength": rng.choice([None, 1, 4])}
         case["index_price"] = float(rng.randint(300, 500))
         case["stop"] = rng.choice([None, None, None, "index", "comp"])
+    # the same agent instance asked again within one step after the market moved (an agent must not remember what it saw)
+    if rng.random() < (0.6 if kind == "arb" else 0.4):
+        moves = []
+        for _ in range(rng.choice([1, 2])):
+            mi = rng.randrange(n_plain + (1 if kind == "arb" and rng.random() < 0.3 else 0))
+            off, vol = rng.choice([-120, -40, -12, -3, 3, 12, 40, 120]), rng.randint(1, 3)
+            moves += [[mi, True, off, vol], [mi, False, off, vol]]       # a crossing pair: a trade `off` ticks away
+        case["reask_orders"] = moves
+        if not case.get("reask") and kind == "mm":
+            case["reask"] = None
     return case
 
 
@@ -150,6 +160,9 @@ def run_case(case):
                        "bb": m.get_best_buy_price(), "bs": m.get_best_sell_price(), "running": bool(m.is_running),
                        "acc": bool(ag.is_market_accessible(m.market_id)),
                        "hist": [m.get_market_price(x) for x in range(0, t + 1)]})
+        if case["kind"] == "arb":
+            st[-1]["index"] = markets[-1].get_index()
+            st[-1]["comps_running"] = bool(markets[-1].is_all_markets_running())
         return st
 
     def ask():
@@ -161,8 +174,20 @@ def run_case(case):
     try:
         res["orders"] = ask()
         res["error"] = None
-        if case.get("reask"):
-            markets[0].change_fundamental_price(scale=case["reask"])
+        n_d, n_m = len(draws), len(proxy.calls)
+        if case.get("reask") or case.get("reask_orders"):
+            if case.get("reask"):
+                markets[0].change_fundamental_price(scale=case["reask"])
+            for (mi, buy, off, vol) in case.get("reask_orders") or []:
+                m = markets[mi]
+                px = max(m.tick_size, m.get_market_price() + off * m.tick_size)
+                o = Order(agent_id=998, market_id=m.market_id, is_buy=buy, kind=LIMIT_ORDER, volume=vol, price=px, ttl=None)
+                try:
+                    m._add_order(o)
+                    if m.is_running:
+                        m._execution()
+                except AssertionError:
+                    pass
             st2 = snapshot()
             res["again"] = {"state": st2, "orders": ask()}
     except Exception as e:  # noqa
@@ -170,12 +195,15 @@ def run_case(case):
         res["error"] = repr(e)[:300]
     finally:
         fcn_mod.math = old_math
-    res["math"] = proxy.calls
-    res["draws"] = draws
+    if res.get("again"):
+        res["math"], res["draws"] = proxy.calls[:n_m], draws[:n_d]
+        res["math2"], res["draws2"] = proxy.calls[n_m:], draws[n_d:]
+    else:
+        res["math"] = proxy.calls
+        res["draws"] = draws
     if case["kind"] == "arb":
-        idx = markets[-1]
-        res["index"] = idx.get_index()
-        res["comps_running"] = bool(idx.is_all_markets_running())
+        res["index"] = state[-1]["index"]
+        res["comps_running"] = state[-1]["comps_running"]
     if case["kind"] in ("fcn", "msfcn"):
         res["tw"], res["mrt"], res["margin"] = ag.time_window_size, ag.mean_reversion_time, ag.order_margin
     if case["kind"] == "mm":
@@ -242,6 +270,15 @@ def mon_C20(case, res):
     st = res["state"]
     if res["error"] is not None:
         return [V("agent-raised", 0, error=res["error"])]
+    if res.get("again"):
+        # the same instance asked a second time in the same step, after the market moved: judged on what it can see then
+        r2 = dict(res, state=res["again"]["state"], orders=res["again"]["orders"], again=None)
+        if k == "arb":
+            r2["index"], r2["comps_running"] = r2["state"][-1]["index"], r2["state"][-1]["comps_running"]
+        if k in ("fcn", "msfcn"):
+            r2["math"], r2["draws"] = res.get("math2", []), res.get("draws2", [])
+        suffix = "-when-asked-again-after-a-fundamental-change" if (k == "mm" and not case.get("reask_orders")) else "-when-asked-again-after-the-market-moved"
+        out += [dict(v, rule=v["rule"] + suffix) for v in mon_C20(dict(case, reask=None, reask_orders=None), r2)]
     acc = {s["id"] for s in st if s["acc"]}
     for o in res["orders"]:
         ag, mk, buy, price, vol, ttl, kind, fresh = o
@@ -290,9 +327,6 @@ def mon_C20(case, res):
                 if o[4] != 1 or o[5] != tw:
                     out.append(V("fcn-order-volume-one-lifetime-window", 0, order=o))
     elif k == "mm":
-        if res.get("again"):
-            r2 = dict(res, state=res["again"]["state"], orders=res["again"]["orders"], again=None)
-            out += [dict(v, rule=v["rule"] + "-when-asked-again-after-a-fundamental-change") for v in mon_C20(dict(case, reask=None), r2)]
         t0 = st[0]
         os_ = res["orders"]
         if len(os_) != 2 or os_[0][1] != t0["id"] or os_[1][1] != t0["id"] or sorted([os_[0][2], os_[1][2]]) != [False, True]:
